@@ -4,7 +4,7 @@ import vlib
 
 PROPS = ["C01", "C02"]
 PROPERTY_OF = {"Excl": "C01", "Occ": "C01", "Phantom": "C01", "Panic": "C01", "Stuck": "C02", "ExclAfterCancel": "C02", "CancelStuck": "C02", "WriterPref": "C02",
-               "SpuriousCancel": "C02", "Residue": "C02"}
+               "SpuriousCancel": "C02", "Residue": "C02", "BadError": "C02"}
 LABEL_RULES = [
     (r"Call\((\d+)\)", "call:c{1}"),
     (r"Cancel\((\d+)\)", "cancel:c{1}"),
